@@ -122,6 +122,8 @@ class RealDaemon:
             (config.SERVERTYPE, config.THREADPOOL_SIZE, config.THREADPOOL_SIZE_MIN, config.COMMTIMEOUT,
              config.MAX_MESSAGE_SIZE, config.POLLTIMEOUT) = self.saved
             shutil.rmtree(self.tmp, ignore_errors=True)
+            from props import c05_rig
+            c05_rig.forget_types([type(self.target)])
 
 
 def read_msg(s):
